@@ -181,6 +181,9 @@ class GeminiServerProtocol(asyncio.Protocol):
 
                 # Extract exactly the expected number of bytes
                 self.titan_request.content = self.buffer[: self.titan_request.size]
+                # Content is complete: leave the waiting state so that any
+                # further read cannot dispatch the upload handler again
+                self.awaiting_titan_content = False
                 self._process_titan_upload()
 
     def _handle_gemini_request(self, url: str) -> None:
@@ -536,6 +539,7 @@ class GeminiServerProtocol(asyncio.Protocol):
                     self.timeout_handle.cancel()
                     self.timeout_handle = None
                 self.titan_request.content = self.buffer[: self.titan_request.size]
+                self.awaiting_titan_content = False
                 self._process_titan_upload()
 
     def _process_titan_upload(self) -> None:
